@@ -80,3 +80,21 @@ Print Assumptions C07_execute_runs_bound.
    empty by [session]; no function of the model takes another connection's state *)
 Theorem C07_fresh : st_stmts st_init = [] /\ st_portals st_init = [].
 Proof. split; reflexivity. Qed.
+
+(* ---------- the whole connection against the executable oracle ---------- *)
+Require Import Wire.RobustFacts Wire.Case Spec.OracleFacts Spec.OracleFactsNames.
+
+(* The oracle replays the client's messages against an ABSTRACT namespace — two partial
+   functions from names — and demands of every reply what that namespace says: a Bind
+   of a defined statement succeeds and snapshots it, an Execute runs exactly the
+   statement its portal was bound to, exactly once, with that Bind's parameters, a
+   Describe describes it, a closed or never defined name is an error, nothing runs for
+   an unknown portal.  For every case without COPY handlers the log of the model passes
+   it: the session's caches refine the abstract namespace message by message
+   ([OracleFactsNames.nmatch]), over histories of any length. *)
+Theorem C07_model_satisfies_oracle : forall sc,
+  case_nocopy sc = true ->
+  (forall v after rest, start (cfg_of_case sc) (sc_raw sc) = Some (v, after, rest) -> v <> version_ssl) ->
+  oracle_names sc (run_case sc) = true.
+Proof. exact oracle_names_model. Qed.
+Print Assumptions C07_model_satisfies_oracle.
